@@ -216,6 +216,10 @@ def c06_build_gate(world, rec, acc, ctx):
     b, a = rec['before'], rec['after']
     st = rec['status']
     table = a.statuses
+    for mp in rec.get('mid_job_pushes') or []:
+        if mp['ok']:
+            acc.count('c06_pushes_during_a_job_before_the_pr_read')
+            acc.seen('c06_outcomes_with_a_push_during_the_job', st)
 
     def status_of(sha):
         return table.get((sha, key), 'NOTSTARTED')
